@@ -253,7 +253,7 @@ Init ==
   /\ pc = "top" /\ dsp = NoDsp /\ cbCount = [s \in S |-> 0]
   /\ steps = 0 /\ nfaults = 0 /\ nextIdle = 1 /\ failNext = {}
   /\ mon = Feed(Empty, <<ResetEv, SnapEv(<<>>, <<>>, "continue", <<>>, {}, [f \in AllFds |-> [on |-> FALSE]])>>)
-  /\ hist = IF RecordHist THEN <<ResetEv>> ELSE <<>>
+  /\ hist = IF RecordHist THEN <<ResetEv, SnapEv(<<>>, <<>>, "continue", <<>>, {}, [f \in AllFds |-> [on |-> FALSE]])>> ELSE <<>>
 
 (***************************************************************************)
 (* Handle operations.  `ctx` = 0 at top level, s inside the callback of s, *)
